@@ -326,6 +326,8 @@ func computeFlameGraphDiff(t1, t2 *Tree) *prof.FlameGraphDiff {
 	xLeftOffsets := []int64{0}
 	xRightOffsets := []int64{0}
 	nameLocationCache := make(map[string]int64)
+	// same policy as BFS: rows that do not form a tree (a node reachable twice) must not loop forever
+	reviewed := make(map[uint64]bool)
 
 	for len(leftNodes) > 0 && len(rightNodes) > 0 {
 		left := leftNodes[0]
@@ -375,6 +377,10 @@ func computeFlameGraphDiff(t1, t2 *Tree) *prof.FlameGraphDiff {
 			childrenRight, _ := t2.Nodes[right.NodeID]
 			for i := len(childrenLeft) - 1; i >= 0; i-- {
 				childLeft := childrenLeft[i]
+				if reviewed[childLeft.NodeID] {
+					continue
+				}
+				reviewed[childLeft.NodeID] = true
 				var childRight *TreeNodeV2
 				if i < len(childrenRight) {
 					childRight = childrenRight[i]
